@@ -37,10 +37,35 @@ where
     }
     reg!(Api, KvJob, BodyJob, ExpectJob, MwJob, TimeJob, ZooEnum, KvErr, KvOut, BodyOut, HttpErrOut, HttpOut, TimeOut, Job, Outcome);
     g.register_app::<A>().map_err(|e| e.to_string())?;
+    finish(g)
+}
+
+/// where generated sources are written (and removed again): next to the worker's report
+static SCRATCH: std::sync::OnceLock<std::path::PathBuf> = std::sync::OnceLock::new();
+
+/// Let the generator itself turn what it traced into the registry it generates code from (the
+/// production path, `TypeGen::java`), and take that registry
+fn finish(mut g: TypeGen) -> Result<Registry, String> {
+    static N: std::sync::atomic::AtomicU64 = std::sync::atomic::AtomicU64::new(0);
+    let base = SCRATCH.get().cloned().unwrap_or_else(std::env::temp_dir);
+    let dir = base.join(format!("wirelab-generated-{}-{}", std::process::id(), N.fetch_add(1, std::sync::atomic::Ordering::Relaxed)));
+    let r = g.java("com.verif.shared", &dir);
+    let _ = std::fs::remove_dir_all(&dir);
+    r.map_err(|e| format!("the generator refused: {e}"))?;
     match std::mem::replace(&mut g.state, State::Generating(Registry::new())) {
         State::Registering(tracer, _samples) => tracer.registry().map_err(|e| e.to_string()),
         State::Generating(r) => Ok(r),
     }
+}
+
+/// The same app types, but the nested enums are *not* registered on their own first (a step an
+/// app's build script can forget): the generator must refuse, or what it hands out must still be
+/// the complete schema.
+fn registry_with_forgotten_registrations() -> Result<Registry, String> {
+    let mut g = TypeGen::new();
+    g.register_type::<Outcome>().map_err(|e| e.to_string())?;
+    g.register_type::<Job>().map_err(|e| e.to_string())?;
+    finish(g)
 }
 
 /// bytes -> Rust value -> bytes, through the real serde implementations
@@ -395,6 +420,29 @@ where
 {
     let _ = args;
     let flavour = if derive { "derive(Effect, Export)" } else { "#[effect(typegen)]" };
+    if derive {
+        report.eval();
+        report.count("generator_runs_with_forgotten_registrations", 1);
+        match (registry_with_forgotten_registrations(), registry_of::<A>()) {
+            (Err(_), _) => {
+                report.count("incomplete_traces_refused_by_the_generator", 1);
+                report.nontrivial(fnv64(b"forgotten-registrations"));
+            }
+            (Ok(partial), Ok(full)) => {
+                let differing: Vec<&String> = partial.keys().filter(|k| full.get(*k).map(|f| format!("{f:?}")) != partial.get(*k).map(|p| format!("{p:?}"))).collect();
+                if differing.is_empty() {
+                    report.nontrivial(fnv64(b"forgotten-registrations"));
+                } else {
+                    report.violation(
+                        "wire/registry/incomplete-schema-handed-out",
+                        &format!("with the nested enums not registered on their own the generator did not refuse but handed out a schema in which {differing:?} differ from the complete schema"),
+                        json!({"lane": "wirelab", "differing": differing}),
+                    );
+                }
+            }
+            (Ok(_), Err(_)) => {}
+        }
+    }
     let reg = match registry_of::<A>() {
         Ok(r) => r,
         Err(e) => {
@@ -687,6 +735,9 @@ fn main() {
         return;
     }
     vcommon::install_panic_hook();
+    if let Some(parent) = args.out.as_deref().and_then(|o| std::path::Path::new(o).parent()) {
+        let _ = SCRATCH.set(parent.to_path_buf());
+    }
     let report = Arc::new(Mutex::new(Report::new(&args.prop)));
     let wd = Watchdog::start(report.clone(), args.out.clone(), Duration::from_secs(300));
     let mut rng = Rng::new(args.worker_seed());
